@@ -67,7 +67,7 @@ func solve(query string, dir, name string, timeoutS int, wantModel bool, quickOn
 	os.WriteFile(file, []byte(q), 0o644)
 	// stage 1: z3-new alone, short budget
 	ctx0, cancel0 := context.WithTimeout(context.Background(), time.Duration(timeoutS+2)*time.Second)
-	short := 3
+	short := 8
 	if timeoutS < short {
 		short = timeoutS
 	}
@@ -100,6 +100,25 @@ func solve(query string, dir, name string, timeoutS int, wantModel bool, quickOn
 		best.result = "unknown"
 	}
 	return best
+}
+
+// dischargeGroups discharges obls; a failing group is replaced by its members.
+func dischargeGroups(obls []*Obligation, dir string, timeoutS, workers int) []*Obligation {
+	dischargeAll(obls, dir, timeoutS, workers)
+	var out []*Obligation
+	var extra []*Obligation
+	for _, o := range obls {
+		if len(o.Children) > 0 && !o.ok() {
+			extra = append(extra, o.Children...)
+			continue
+		}
+		out = append(out, o)
+	}
+	if len(extra) > 0 {
+		dischargeAll(extra, filepath.Join(dir, "members"), timeoutS, workers)
+		out = append(out, extra...)
+	}
+	return out
 }
 
 func dischargeAll(obls []*Obligation, dir string, timeoutS, workers int) {
